@@ -71,11 +71,14 @@ def FS.isDir (fs : FS) (p : Path) : Bool :=
   | some n => n.isDir
   | none => false
 
-/-- the kernel refreshes a directory's modification time when an entry is created in it -/
-def FS.bumpDir (fs : FS) (p : Path) : FS :=
-  match fs p with
-  | some (.dir m _) => fs.set p (.dir m none)
-  | _ => fs
+/-- the kernel refreshes a directory's modification time when an entry is created in it.
+(Written with the lookup outermost so that one lookup in the result costs one lookup in `fs`.) -/
+def FS.bumpDir (fs : FS) (p : Path) : FS := fun q =>
+  if q = p then
+    match fs p with
+    | some (.dir m _) => some (.dir m none)
+    | x => x
+  else fs q
 
 /-! ## path strings -/
 
@@ -171,10 +174,12 @@ def chmod (fs : FS) (cwd : Path) (s : Str) (mode : Nat) : Option (FS × Path) :=
   | some (p, n) => some (fs.set p (n.setMode (mode % 4096)), p)
 
 /-- `fchmod(2)` on the file opened at canonical path `p` -/
-def fchmodAt (fs : FS) (p : Path) (mode : Nat) : FS :=
-  match fs p with
-  | some n => fs.set p (n.setMode (mode % 4096))
-  | none => fs
+def fchmodAt (fs : FS) (p : Path) (mode : Nat) : FS := fun q =>
+  if q = p then
+    match fs p with
+    | some n => some (n.setMode (mode % 4096))
+    | none => none
+  else fs q
 
 def usecOk (t : Time) : Bool := decide (0 ≤ t.usec) && decide (t.usec < 1000000)
 
@@ -198,9 +203,11 @@ def overwrite (old w : Str) : Str := w ++ old.drop w.length
 def resize (d : Str) (n : Nat) : Str := d.take n ++ List.replicate (n - d.length) 0
 
 /-- store new contents in the file at `p`; the kernel clock sets the modification time -/
-def setData (fs : FS) (p : Path) (d : Str) : FS :=
-  match fs p with
-  | some (.file m _ _) => fs.set p (.file m none d)
-  | _ => fs
+def setData (fs : FS) (p : Path) (d : Str) : FS := fun q =>
+  if q = p then
+    match fs p with
+    | some (.file m _ _) => some (.file m none d)
+    | x => x
+  else fs q
 
 end PdshVerif.Pcp
